@@ -36,7 +36,7 @@ theorem covered_sites : covered = [
     ("TRANSFORMER", "TransformerInObjects.identifier_list", .object),
     ("TRANSFORMER", "TransformerOutObjects.identifier_list", .object),
     ("VARIANT_CODING", "VarMeasurement.name", .object), ("VARIANT_CODING", "VarSelectionCharacteristic.name", .object),
-    ("VARIANT_CODING", "VarCharacteristic.criterion_name_list", .object),
+    ("VARIANT_CODING", "VarCharacteristic.name", .object),
     ("INSTANCE", "Instance.type_ref", .typedef), ("TYPEDEF_STRUCTURE", "StructureComponent.component_type", .typedef),
     ("TRANSFORMER", "Transformer.inverse_transformer", .transformer)] := by decide
 
@@ -48,7 +48,7 @@ theorem uncovered_sites :
     coveredNs "MEASUREMENT" "FunctionList.name_list" = none ∧ coveredNs "CHARACTERISTIC" "FunctionList.name_list" = none ∧
     coveredNs "AXIS_PTS" "FunctionList.name_list" = none ∧ coveredNs "GROUP" "FunctionList.name_list" = none ∧
     coveredNs "FUNCTION" "SubFunction.identifier_list" = none ∧ coveredNs "GROUP" "SubGroup.identifier_list" = none ∧
-    coveredNs "USER_RIGHTS" "RefGroup.identifier_list" = none ∧ coveredNs "VARIANT_CODING" "VarCharacteristic.name" = none ∧
+    coveredNs "USER_RIGHTS" "RefGroup.identifier_list" = none ∧ coveredNs "VARIANT_CODING" "VarCharacteristic.criterion_name_list" = none ∧
     coveredNs "VARIANT_CODING" "CombinationStruct.criterion_name" = none ∧
     coveredNs "MEASUREMENT" "RefMemorySegment.name" = none := by decide
 
